@@ -372,7 +372,7 @@ fn keypath(d: &B, form: usize, nl: usize, far: bool) {
 
 // ================= harness instances
 const D3: [(u8, usize); 3] = [(K_NUM, 2), (K_STR, 1), (K_NULL, 0)];
-//@ props: C05
+//@ props: UNREACHED-C05
 //@ tier: thorough
 //@ timeout: 3600
 //@ harness: c05_index_s0, c05_index_s1, c05_index_s2, c05_index_s3567, c05_index_far
@@ -386,7 +386,7 @@ harness!(c05_index_s2, shapes_split(2, &D3, 2, |d| by_index(d, false)));
 harness!(c05_index_s3567, split1(4, |k| shapes_split(if k == 0 { 3 } else { 4 + k }, &D3, 2, |d| by_index(d, false))));
 harness!(c05_index_far, split1(3, |k| with_shape([0, 2, 6][k], D3[0], D3[1], |d| by_index(d, true))));
 
-//@ props: C05
+//@ props: UNREACHED-C05
 //@ tier: thorough
 //@ timeout: 3600
 //@ harness: c05_values_s0, c05_values_s2, c05_values_s3567
@@ -398,7 +398,7 @@ harness!(c05_values_s0, shapes_split(0, &D3, 3, |d| values(d)));
 harness!(c05_values_s2, shapes_split(2, &D3, 2, |d| values(d)));
 harness!(c05_values_s3567, split1(4, |k| shapes_split(if k == 0 { 3 } else { 4 + k }, &D3, 2, |d| values(d))));
 
-//@ props: C05
+//@ props: UNREACHED-C05
 //@ tier: thorough
 //@ timeout: 3600
 //@ harness: c05_name_s3_l0, c05_name_s3_l1, c05_name_s3_l2, c05_name_s4_l0, c05_name_s4_l1, c05_name_s8_l1, c05_name_s8_l2, c05_name_s0567
@@ -415,7 +415,7 @@ harness!(c05_name_s8_l1, with_shape(8, D3[0], D3[0], |d| by_name(d, 1)));
 harness!(c05_name_s8_l2, with_shape(8, D3[0], D3[1], |d| by_name(d, 2)));
 harness!(c05_name_s0567, split1(4, |k| with_shape(if k == 0 { 0 } else { 4 + k }, D3[0], D3[1], |d| by_name(d, 1))));
 
-//@ props: C05
+//@ props: UNREACHED-C05
 //@ tier: thorough
 //@ timeout: 3600
 //@ harness: c05_keys_s3, c05_keys_s4, c05_keys_s8, c05_keys_s0567
@@ -428,7 +428,7 @@ harness!(c05_keys_s4, shapes_split(4, &D3, 2, |d| keys_each(d)));
 harness!(c05_keys_s8, shapes_split(8, &D3, 2, |d| keys_each(d)));
 harness!(c05_keys_s0567, split1(4, |k| with_shape(if k == 0 { 0 } else { 4 + k }, D3[0], D3[1], |d| keys_each(d))));
 
-//@ props: C05
+//@ props: UNREACHED-C05
 //@ tier: thorough
 //@ timeout: 3600
 //@ harness: c05_views_scalar, c05_views_containers
@@ -451,7 +451,7 @@ harness!(c05_views_scalar, split1(NCLS, |i| with_shape(5, CLS[i], CLS[0], |d| {
 })));
 harness!(c05_views_containers, split1(4, |k| with_shape(if k < 2 { 6 + k } else { k - 2 }, CLS[4], CLS[9], |d| type_and_views(d))));
 
-//@ props: C05
+//@ props: UNREACHED-C05
 //@ tier: thorough
 //@ timeout: 3600
 //@ harness: c05_exists_obj, c05_exists_arr, c05_exists_other
@@ -463,7 +463,7 @@ harness!(c05_exists_obj, shapes_split(3, &D3, 2, |d| exists(d, 1, 2)));
 harness!(c05_exists_arr, shapes_split(0, &CLS_T, 3, |d| exists(d, 1, 1)));
 harness!(c05_exists_other, split1(3, |k| with_shape(5 + k, D3[1], D3[0], |d| exists(d, 1, 0))));
 
-//@ props: C05
+//@ props: UNREACHED-C05
 //@ tier: thorough
 //@ timeout: 3600
 //@ harness: c05_traverse_s0, c05_traverse_s2, c05_traverse_s4, c05_traverse_s8, c05_traverse_s567
@@ -477,7 +477,7 @@ harness!(c05_traverse_s4, shapes_split(4, &CLS_T, 3, |d| traverse(d, 1)));
 harness!(c05_traverse_s8, shapes_split(8, &CLS_T, 3, |d| traverse(d, 1)));
 harness!(c05_traverse_s567, split1(3, |k| shapes_split(5 + k, &CLS_T, 3, |d| traverse(d, 1))));
 
-//@ props: C05
+//@ props: UNREACHED-C05
 //@ tier: thorough
 //@ timeout: 3600
 //@ harness: c05_keypath_f0, c05_keypath_f1_s0, c05_keypath_f1_s1, c05_keypath_f2_s3, c05_keypath_f3_s1, c05_keypath_f4_s2, c05_keypath_f5_s4, c05_keypath_f6_s8, c05_keypath_past, c05_keypath_far
@@ -555,8 +555,8 @@ harness!(c05q_traverse, split1(4, |k| with_shape([0, 2, 4, 8][k], if k == 0 { QX
 
 //@ props: C05
 //@ timeout: 900
-//@ harness: c05q_keypath_0, c05q_keypath_i, c05q_keypath_n, c05q_keypath_ii, c05q_keypath_in, c05q_keypath_ni, c05q_keypath_nn, c05q_keypath_far
-//@ desc: quick tier: get_by_keypath: {} / {i} on [n2,s1,s1'] and [[s1],n2]; {name} on {k:n2,kk:s1}; {i,j} on [[n2],s1] with i in -3..=3, j in -2..=2; {i,name}, {name,i}, {name,name} on [null,{k:n9},n2], {"":n2,k:[s1]}, {a:{j:n2},b:s1,cc:null}; indices -4..=4 by case split plus every |i| > 5 at once
+//@ harness: c05q_keypath_0, c05q_keypath_i, c05q_keypath_n, c05q_keypath_ii, c05q_keypath_in, c05q_keypath_far
+//@ desc: quick tier: get_by_keypath: {} / {i} on [n2,s1,s1'] and [[s1],n2]; {name} on {k:n2,kk:s1}; {i,j} on [[n2],s1] with i in -3..=3, j in -2..=2; {i,name} on [null,{k:n9},n2]; indices -4..=3 by case split plus every |i| > 5 at once on []
 //@ fns: get_by_keypath, get_jentry_by_name, get_jentry_by_index, extract_by_jentry
 //@ bounds: paths <= 2 elements; depth 2; indices: all of i32
 //@ stubs: parse_value -> panic | drop_in_place -> no-op | core::str::from_utf8 -> specification model
@@ -565,9 +565,7 @@ harness!(c05q_keypath_i, with_shape(0, QX, QY, |d| keypath(d, 1, 1, false)));
 harness!(c05q_keypath_n, with_shape(3, QX, QY, |d| keypath(d, 2, 2, false)));
 harness!(c05q_keypath_ii, with_shape(1, QX, QY, |d| keypath(d, 3, 1, false)));
 harness!(c05q_keypath_in, with_shape(2, QZ, QN9, |d| keypath(d, 4, 1, false)));
-harness!(c05q_keypath_ni, with_shape(4, QX, QY, |d| keypath(d, 5, 1, false)));
-harness!(c05q_keypath_nn, with_shape(8, QX, QY, |d| keypath(d, 6, 1, false)));
-harness!(c05q_keypath_far, split1(2, |k| with_shape([6, 1][k], QX, QY, |d| keypath(d, if k == 1 { 3 } else { 1 }, 1, true))));
+harness!(c05q_keypath_far, with_shape(6, QX, QY, |d| keypath(d, 1, 1, true)));
 
 //@ props: C05
 //@ timeout: 300
